@@ -71,10 +71,14 @@ func c09Workspaces() []c09WS {
 				"c.lua": "---@type Derived\nlocal v = {}\nprint(v.fa, v.fb)\n"},
 			open:    []string{"c.lua"},
 			queries: []c09Query{{"definition", "c.lua", 2, 8, ""}, {"definition", "c.lua", 2, 14, ""}, {"hover", "c.lua", 2, 8, ""}, {"completion", "c.lua", 2, 8, "."}}},
-		{name: "w10-global-that-is-a-function-in-one-file-and-a-number-in-another",
-			files: map[string]string{"a.lua": "--- the function\nfunction foo(x) return x end\n", "b.lua": "--- the number\nfoo = 5\n", "c.lua": "print(foo)\n\n"},
+		{name: "w10-global-that-is-a-function-in-one-file-and-a-number-further-down-in-another",
+			files: map[string]string{"a.lua": "foo = function(p1, p2) return p1 end\n", "b.lua": "local unused = 0\nprint(unused)\nfoo = 12345\n", "c.lua": "local x = 1\nprint(x)\n\n"},
 			open:  []string{"c.lua"},
-			queries: []c09Query{{"completion+resolve", "c.lua", 1, 0, "foo"}, {"completion+resolve", "c.lua", 0, 9, "foo"}, {"hover", "c.lua", 0, 7, ""}, {"definition", "c.lua", 0, 7, ""}}},
+			events: func(s *drv.Server) {
+				// the user types "fo" on the empty last line (unsaved)
+				s.ChangeInc("c.lua", []drv.Edit{{Range: drv.Range{Start: drv.Pos{Line: 2, Character: 0}, End: drv.Pos{Line: 2, Character: 0}}, Text: "fo"}})
+			},
+			queries: []c09Query{{"completion+resolve", "c.lua", 2, 2, "foo"}, {"completion", "c.lua", 2, 2, ""}}},
 		{name: "w9-one-watched-files-batch-naming-a-changed-and-an-unchanged-file",
 			files: map[string]string{"a.lua": "local z = 1\nprint(z)\n", "b.lua": "gy = 1\n", "c.lua": "print(gx, gy)\n"},
 			open:  []string{"c.lua"},
